@@ -23,5 +23,6 @@ UnpaddedRefusesLeadingZero ==
   stage \in {"configured", "used"} =>
      (cfg.ok <=> CASE role = "priv" -> priv[1] # 0
                    [] role = "privpub" -> priv[1] # 0 /\ pub[1] # 0
-                   [] role = "trusted" -> pub[1] # 0)
+                   [] role = "trusted" -> pub[1] # 0
+                   [] role = "sharedown" -> priv[1] # 0 /\ pub[1] # 0)
 =============================================================================
